@@ -1026,12 +1026,14 @@ func checkedValidate(sp *saml2.SAMLServiceProvider, in input, entry string) stri
 	if wire != in.wire {
 		violate("input-mutated:"+entry, entry+" modified its input string", map[string]interface{}{"entry": entry, "input": in.name})
 	}
-	if accepted != in.accept {
+	if accepted != in.accept && sp.ServiceProviderIssuer != otherTenantIssuer { // (the other tenant holds another key: its verdicts are compared with its own fresh-process answers only)
 		violate("verdict:"+entry+"/"+in.name, fmt.Sprintf("%s on %s: accepted=%v, but the message was built to be accepted=%v", entry, in.name, accepted, in.accept),
 			map[string]interface{}{"entry": entry, "input": in.name, "wire": in.wire, "outcome": out})
 	}
 	return out
 }
+
+const otherTenantIssuer = "https://other-tenant.example.com/metadata"
 
 func safeRun(name string, f func(sp *saml2.SAMLServiceProvider) string, sp *saml2.SAMLServiceProvider) (res string) {
 	defer func() {
@@ -1062,6 +1064,22 @@ func main() {
 	canonV := []string{"", "exc", "c14n11", "exc-comments"}
 	evals, concurrentCalls := 0, 0
 	counts := map[string]int{}
+	// --- another tenant: an identically configured service provider with ANOTHER decryption / signing key. What it
+	// answers in a process that has done nothing else (now) is what it must answer after other instances have processed
+	// the same messages (state shared between instances, e.g. a package-level cache of unwrapped keys, would change it)
+	otherTenant := func() *saml2.SAMLServiceProvider {
+		o := newSP(spConfig{Keys: "field", Alg: dsig.RSASHA256SignatureMethod})
+		o.SPKeyStore = &memKeyStore{spSign.key, spSign.der}
+		o.ServiceProviderIssuer = otherTenantIssuer
+		return o
+	}
+	otherFresh := make([]string, len(ops))
+	for i, o := range ops {
+		if o.class == "validate" {
+			otherFresh[i] = safeRun(o.name, o.run, otherTenant())
+			evals++
+		}
+	}
 	for round := 0; round < *rounds; round++ {
 		cfg := spConfig{Keys: keysV[round%len(keysV)], Alg: algV[r.Intn(len(algV))], Canon: canonV[r.Intn(len(canonV))]}
 		if round < len(keysV) && round%2 == 0 {
@@ -1109,6 +1127,19 @@ func main() {
 		}
 		if s := snapshot(ref, spSkip); s != refSnap {
 			violate("sp-mutated:sequential", "sequential calls modified the service provider: "+firstDiff(refSnap, s), map[string]interface{}{"config": cfg.String()})
+		}
+		// --- the other tenant again, after this process has handled the messages on other instances
+		for i, o := range ops {
+			if o.class != "validate" {
+				continue
+			}
+			got := safeRun(o.name, o.run, otherTenant())
+			evals++
+			counts["other-tenant-checks"]++
+			if got != otherFresh[i] {
+				violate("isolation:other-instance:"+o.name, "a service provider with another key answers "+o.name+" differently once OTHER instances have processed the same message (state shared between instances)",
+					map[string]interface{}{"op": o.name, "config": cfg.String(), "in_a_fresh_process": otherFresh[i], "after_other_instances": got})
+			}
 		}
 		// --- shared instance: G goroutines, all operations, first use of the signing context raced
 		shared := newSP(cfg)
